@@ -63,6 +63,12 @@ func (s *state) nm(q []string) string { return strings.Join(q, s.sep) }
 // observer draws the option list of one observer call together with the
 // separator the reported paths must then be spelled with.
 func (s *state) observer() ([]ucfg.Option, string) {
+	if s.fsep != "" && s.r.Intn(3) == 0 {
+		// the separator that one of the names of the case contains
+		s.res.SetAdd("observer_options", "PathSep("+s.fsep+")")
+		s.res.Ev("observer_calls_with_separator_contained_in_a_name", 1)
+		return []ucfg.Option{ucfg.PathSep(s.fsep)}, s.fsep
+	}
 	i := s.r.Intn(len(sepPool) + 2)
 	if i >= len(sepPool) {
 		s.res.SetAdd("observer_options", "<none>")
@@ -241,7 +247,10 @@ type state struct {
 	log    []string
 	muts   int
 	failed bool
-	events []event // bookkeeping for the classifier, one or two per step
+	events []event      // bookkeeping for the classifier, one or two per step
+	keys   []string     // names of the case
+	topts  gen.TreeOpts // tree generator options with those names
+	fsep   string       // separator contained in one name of the case ("" = none)
 	// containers that lost their last named setting / last element by a removal
 	emptiedDict, emptiedList map[*model.Node]bool
 }
@@ -300,16 +309,23 @@ func (s *state) address(q []string) (string, int) {
 		return "", -1
 	}
 	last := q[len(q)-1]
-	if i, err := strconv.Atoi(last); err == nil && (len(q) == 1 || s.r.Intn(2) == 0) {
+	if i, err := strconv.Atoi(last); err == nil && (len(q) == 1 || (s.r.Intn(2) == 0 && s.nm(q[:len(q)-1]) != "")) {
 		return s.nm(q[:len(q)-1]), i
 	}
 	return s.nm(q), -1
 }
 
+// addressable: the API cannot name the one-segment path made of the empty
+// name (an empty name argument means "by index"); every other path it can.
+func addressable(q []string) bool { return !(len(q) == 1 && q[0] == "") }
+
 // handle returns the config stored at path q of tree t (the root for q = nil).
 func (s *state) handle(t int, q []string) (*ucfg.Config, string, error) {
 	if len(q) == 0 {
 		return s.trees[t].c, fmt.Sprintf("T%d", t), nil
+	}
+	if !addressable(q) {
+		return nil, "", fmt.Errorf("the setting named \"\" of a root has no address")
 	}
 	name, idx := s.address(q)
 	h, err := s.trees[t].c.Child(name, idx, s.o()...)
@@ -317,10 +333,136 @@ func (s *state) handle(t int, q []string) (*ucfg.Config, string, error) {
 	return h, fmt.Sprintf("T%d.Child(%q,%d)", t, name, idx), err
 }
 
+// key draws a name of the case; first = it would be the whole address (the
+// empty name alone cannot be passed to the API).
+func (s *state) key(first bool) string {
+	k := s.keys[s.r.Intn(len(s.keys))]
+	if k == "" && first {
+		k = gen.Keys[s.r.Intn(len(gen.Keys))]
+	}
+	return k
+}
+
+// drawDepth draws a nesting depth: small ones, and the neighbourhood of the
+// powers of two up to 256.
+func drawDepth(r *rand.Rand) int {
+	if r.Intn(3) == 0 {
+		return 5 + r.Intn(36)
+	}
+	return (16 << uint(r.Intn(5))) - 1 + r.Intn(5)
+}
+
+// spine puts inner below d levels of dictionaries and lists (some with
+// further settings beside the way down); the root keeps the kind of inner's root.
+func (s *state) spine(d int, inner *model.Node) *model.Node {
+	r := s.r
+	wantList := isList(inner)
+	cur := inner
+	for i := 0; i < d; i++ {
+		asList := r.Intn(4) == 0
+		if i == d-1 {
+			asList = wantList
+		}
+		if asList {
+			els := make([]*model.Node, 1+r.Intn(3))
+			for j := range els {
+				els[j] = model.P(int64(j))
+			}
+			els[r.Intn(len(els))] = cur
+			cur = model.List(els...)
+		} else {
+			n := model.Dict()
+			n.D[s.key(false)] = cur
+			if r.Intn(4) == 0 {
+				if k := s.key(false); n.D[k] == nil {
+					n.D[k] = model.P("side")
+				}
+			}
+			cur = n
+		}
+	}
+	return cur
+}
+
+// dotted re-spells a tree for input with PathSep: some settings of nested
+// dictionaries move up under a name joined with the separator of the case
+// ({a:{b:X,c:Y}} becomes {"a.b":X, a:{c:Y}} or {"a.b":X, "a.c":Y}), whatever
+// X is - a primitive, an object or a list. The tree described stays the same.
+func (s *state) dotted(n *model.Node, st *[3]int64) *model.Node {
+	if !n.IsSub() {
+		return n.Copy()
+	}
+	out := &model.Node{Kind: model.KSub, HasA: n.HasA}
+	for _, e := range n.A {
+		out.A = append(out.A, s.dotted(e, st))
+	}
+	if n.D != nil {
+		out.D = map[string]*model.Node{}
+	}
+	for _, k := range n.SortedKeys() {
+		c := s.dotted(n.D[k], st)
+		if !c.IsSub() || len(c.D) == 0 || len(c.A) > 0 || s.r.Intn(2) == 0 {
+			out.D[k] = c
+			continue
+		}
+		rest := model.Dict()
+		for _, ck := range c.SortedKeys() {
+			if s.r.Intn(3) == 0 {
+				rest.D[ck] = c.D[ck]
+				continue
+			}
+			out.D[k+s.sep+ck] = c.D[ck]
+			if c.D[ck].IsSub() {
+				st[0]++
+			} else {
+				st[1]++
+			}
+		}
+		if len(rest.D) > 0 {
+			out.D[k] = rest
+			if len(rest.D) < len(c.D) {
+				st[2]++
+			}
+		}
+	}
+	return out
+}
+
+// render chooses a Go representation of a tree: nested maps, maps with
+// interface keys, run-time built structs (names as tags), each of them either
+// spelled as it is or with dotted names.
+func (s *state) render(n *model.Node) (interface{}, string) {
+	how := ""
+	if s.r.Intn(3) == 0 {
+		var st [3]int64
+		if d := s.dotted(n, &st); st[0]+st[1] > 0 {
+			n, how = d, "dotted-"
+			s.res.Ev("dotted_input_names_with_object_or_list_value", st[0])
+			s.res.Ev("dotted_input_names_with_primitive_value", st[1])
+			s.res.Ev("namespaces_spelled_twice_in_one_input", st[2])
+		}
+	}
+	var data interface{}
+	switch x := s.r.Intn(6); {
+	case x == 0:
+		data, how = gen.ToMapI(n), how+"mapi"
+	case x == 1 && n.IsSub() && !n.HasA && len(n.A) == 0:
+		if v, ok := gen.ToStruct(s.r, n); ok && v != nil {
+			data, how = v, how+"struct"
+			break
+		}
+		fallthrough
+	default:
+		data, how = n.ToGo(), how+"maps"
+	}
+	s.res.SetAdd("go_data_rendering", how)
+	return data, how
+}
+
 // rootList generates a non-empty top-level list.
-func rootList(r *rand.Rand) *model.Node {
+func rootList(r *rand.Rand, o gen.TreeOpts) *model.Node {
 	for {
-		n := gen.Top(r, treeOpts, 3)
+		n := gen.Top(r, o, 3)
 		if isList(n) && len(n.A) > 0 {
 			return n
 		}
@@ -335,22 +477,50 @@ func (check) Run(seed int64, tier string, idx int, verbose bool) harness.Result 
 		s.sep = sepPool[r.Intn(len(sepPool))]
 	}
 	res.SetAdd("operation_sep", s.sep)
+	// names of the case: the small pool, in some cases also the empty name and
+	// a name that contains a separator of the pool other than the one the
+	// operations of the case split names at (and never ".", see Assumptions)
+	s.keys = append([]string{}, gen.Keys...)
+	if r.Intn(6) == 0 {
+		s.keys = append(s.keys, "")
+		res.Ev("cases_with_empty_name_in_pool", 1)
+	}
+	if r.Intn(6) == 0 {
+		var fs []string
+		for _, f := range sepPool {
+			if f != "." && !strings.Contains(f, s.sep) && !strings.Contains(s.sep, f) {
+				fs = append(fs, f)
+			}
+		}
+		s.fsep = fs[r.Intn(len(fs))]
+		s.keys = append(s.keys, gen.Keys[r.Intn(len(gen.Keys))]+s.fsep+gen.Keys[r.Intn(len(gen.Keys))])
+		res.Ev("cases_with_name_containing_other_separator", 1)
+	}
+	s.topts = treeOpts
+	s.topts.Keys = s.keys
 	var m *model.Node
 	if r.Intn(5) == 0 {
-		m = rootList(r)
+		m = rootList(r, s.topts)
 		res.Ev("cases_with_list_root", 1)
 	} else {
-		m = gen.TopDict(r, treeOpts, 3)
+		m = gen.TopDict(r, s.topts, 3)
+	}
+	if r.Intn(8) == 0 {
+		d := drawDepth(r)
+		m = s.spine(d, m)
+		res.Ev("cases_with_deep_initial_tree", 1)
+		res.SetAdd("initial_spine_depth", strconv.Itoa(d))
 	}
 	panicked, pv, where := harness.Safe(func() {
-		c, err := ucfg.NewFrom(m.ToGo(), s.o()...)
+		data, how := s.render(m)
+		c, err := ucfg.NewFrom(data, s.o()...)
 		res.Eval(1)
 		if err != nil {
-			s.fail("newfrom-error", "NewFrom(%s): %v", m, err)
+			s.fail("newfrom-error", "NewFrom(%s as %s): %v", m, how, err)
 			return
 		}
 		s.trees = []*tree{{c, m}}
-		s.log = append(s.log, fmt.Sprintf("sep=%q T0=NewFrom(%s)", s.sep, m))
+		s.log = append(s.log, fmt.Sprintf("sep=%q T0=NewFrom[%s](%s)", s.sep, how, m))
 		s.verify(-1, nil)
 		n := 3 + r.Intn(18)
 		for i := 0; i < n && !s.failed; i++ {
@@ -387,6 +557,9 @@ func (s *state) receiver(t int) (recv *ucfg.Config, rq []string, rm *model.Node,
 		var cand [][]string
 		nodesOf(tr.m, nil, func(n *model.Node) bool { return n.IsSub() }, &cand)
 		cand = cand[1:] // the root itself
+		if len(cand) > 0 && !addressable(cand[0]) {
+			cand = cand[1:] // sorts first: the node named "" of the root cannot be asked for
+		}
 		if len(cand) > 0 {
 			rq = cand[s.r.Intn(len(cand))]
 		}
@@ -455,7 +628,7 @@ func (s *state) step() bool {
 			if r.Intn(2) == 0 {
 				seg = "0"
 			} else {
-				seg = gen.Keys[r.Intn(len(gen.Keys))]
+				seg = s.key(len(q) == 0)
 			}
 			switch {
 			case seg == "0" && s.emptiedDict[n]:
@@ -467,18 +640,40 @@ func (s *state) step() bool {
 		case isList(n):
 			seg = strconv.Itoa(r.Intn(len(n.A) + 1)) // overwrite or append; no padding (nil elements are fine too but keep lists dense)
 		default:
-			seg = gen.Keys[r.Intn(len(gen.Keys))]
+			seg = s.key(len(q) == 0)
 		}
 		full := cat(q, []string{seg})
+		if i, e := strconv.Atoi(seg); (e == nil && i >= len(n.A) || e != nil && n.D[seg] == nil) && r.Intn(6) == 0 {
+			// nothing is stored there yet: continue the address, the levels in
+			// between come into being with the write (a few, sometimes many)
+			k := 1 + r.Intn(3)
+			if r.Intn(5) == 0 {
+				if k = drawDepth(r); k > 80 {
+					k = 80
+				}
+			}
+			for i := 0; i < k; i++ {
+				if r.Intn(4) == 0 {
+					full = append(full, "0")
+				} else {
+					full = append(full, s.key(false))
+				}
+			}
+			s.res.Ev("writes_creating_intermediate_levels", 1)
+			if k > 32 {
+				s.res.Ev("writes_creating_more_than_32_levels", 1)
+			}
+		}
 		name, idx := s.address(full)
 		var val *model.Node
 		var err error
 		if r.Intn(3) == 0 {
-			val = gen.Tree(r, treeOpts, 2)
+			val = gen.Tree(r, s.topts, 2)
 			for !val.IsSub() {
-				val = gen.Tree(r, treeOpts, 2)
+				val = gen.Tree(r, s.topts, 2)
 			}
-			sc, e := ucfg.NewFrom(map[string]interface{}{"w": val.ToGo()})
+			data, _ := s.render(val)
+			sc, e := ucfg.NewFrom(map[string]interface{}{"w": data}, s.o()...)
 			if e != nil {
 				return false
 			}
@@ -571,6 +766,12 @@ func (s *state) step() bool {
 			}
 			s.events = append(s.events, event{t, join(cat(rq, q)), ""})
 		}
+		if !addressable(full) {
+			// the setting named "" of the receiver itself cannot be named in a call
+			s.events = s.events[:len(s.events)-1]
+			delete(s.emptiedDict, rm)
+			return false
+		}
 		name, idx := s.address(full)
 		ok, err := recv.Remove(name, idx, s.o()...)
 		s.res.Eval(1)
@@ -643,19 +844,20 @@ func (s *state) step() bool {
 		}
 		if operand == nil {
 			if blank(rm) && r.Intn(2) == 0 {
-				b = compat(rm, gen.Top(r, treeOpts, 2))
+				b = compat(rm, gen.Top(r, s.topts, 2))
 			} else {
-				b = compat(rm, gen.MutateTop(r, treeOpts, rm, 3))
+				b = compat(rm, gen.MutateTop(r, s.topts, rm, 3))
 			}
 			if !b.IsSub() || (!blank(rm) && isList(b) != isList(rm)) {
 				return false // a dictionary receiver gets a map, a list receiver a list
 			}
 			// operand form: Go data, a parentless *Config, a child handle of another
 			// config; the configs stay in use as further trees while there is room
-			operand, fname = b.ToGo(), "go-data"
+			data, how := s.render(b)
+			operand, fname = data, "go-data:"+how
 			switch form {
 			case 2:
-				if oc, e := ucfg.NewFrom(b.ToGo(), s.o()...); e == nil {
+				if oc, e := ucfg.NewFrom(data, s.o()...); e == nil {
 					operand, fname = oc, "config"
 					if len(s.trees) < maxTrees {
 						s.trees = append(s.trees, &tree{oc, b.Copy()})
@@ -664,7 +866,7 @@ func (s *state) step() bool {
 					}
 				}
 			case 3:
-				if wc, e := ucfg.NewFrom(map[string]interface{}{"w": b.ToGo()}, s.o()...); e == nil {
+				if wc, e := ucfg.NewFrom(map[string]interface{}{"w": data}, s.o()...); e == nil {
 					if ch, e := wc.Child("w", -1); e == nil {
 						operand, fname = ch, "child-of-other-config"
 						if len(s.trees) < maxTrees {
@@ -735,12 +937,16 @@ func (s *state) step() bool {
 		if r.Intn(2) == 0 {
 			dt = r.Intn(len(s.trees))
 		}
+		ownRoot := r.Intn(12) == 0
+		if ownRoot {
+			// the value is the root of the tree written to: the receiver itself or
+			// one of its ancestors; it has no parent yet
+			src = cnd{dt, nil}
+		}
 		var qs [][]string
 		nodesOf(s.trees[dt].m, nil, func(n *model.Node) bool { return n.IsSub() }, &qs)
 		for _, q := range qs {
-			if dt == src.t && strings.HasPrefix(join(q)+".", join(src.q)+".") {
-				continue // never into itself
-			}
+			// also into itself: what is attached is a copy taken before the write
 			dsts = append(dsts, cnd{dt, q})
 		}
 		if len(dsts) == 0 {
@@ -761,14 +967,32 @@ func (s *state) step() bool {
 		case isList(dn) && !blank(dn):
 			seg = strconv.Itoa(r.Intn(len(dn.A) + 1))
 		case r.Intn(2) == 0:
-			seg = gen.Keys[r.Intn(len(gen.Keys))]
+			seg = s.key(len(dst.q) == 0)
 		}
 		full := cat(dst.q, []string{seg})
 		name, idx := s.address(full)
 		sub := at(s.trees[src.t].m, src.q).Copy()
+		if dt == src.t && strings.HasPrefix(join(dst.q)+".", join(src.q)+".") {
+			s.res.Ev("reattachments_below_the_reattached_node_itself", 1)
+		}
 		err = s.trees[dt].c.SetChild(name, idx, h, s.o()...)
 		s.res.Eval(1)
 		s.log = append(s.log, fmt.Sprintf("T%d.SetChild(%q,%d, %s)", dt, name, idx, desc))
+		if ownRoot {
+			s.res.Ev("setchild_of_the_own_root", 1)
+			if err != nil {
+				// refused: nothing may have changed
+				s.res.SetAdd("setchild_of_the_own_root_outcome", "refused")
+				s.verify(t, prev)
+				return false
+			}
+			if s.trees[dt].c.Parent() != nil {
+				// do not look any further: Path and FlattenedKeys would not return
+				s.fail("setchild-of-own-root-links-config-into-itself", "T%d.SetChild(%q,%d, T%d) succeeded and T%d, the root, now has a parent: the config contains itself", dt, name, idx, dt, dt)
+				return true
+			}
+			s.res.SetAdd("setchild_of_the_own_root_outcome", "copy attached")
+		}
 		if err != nil {
 			s.fail("set-error", "re-attachment failed: %v", err)
 			return true
@@ -857,8 +1081,8 @@ func (s *state) verify(changed int, prev *model.Node) {
 		return s.classify(t, n.Walk, generic)
 	}
 	for t := range s.trees {
-		for _, n := range walks[t] {
-			if n.Walk == "" {
+		for i, n := range walks[t] {
+			if i == 0 { // the root (a setting named "" of the root also walks as "")
 				if n.Field != "" || n.Parent != 0 {
 					s.fail(s.classify(t, "", "root-has-context"), "root of T%d stores field %q parent %#x", t, n.Field, n.Parent)
 					return
@@ -945,6 +1169,29 @@ func (s *state) keysSig(t int, got, want []string, sep, generic string) string {
 	if extra && extraNull && len(missing) == 0 {
 		return "flattenedkeys-lists-null-setting"
 	}
+	if extra && len(missing) > 0 {
+		// every missing path turns up without its leading names?
+		cls, shortest := "", 0
+		for _, k := range missing {
+			E, c := strings.Split(k, "."), ""
+			for _, g := range got {
+				if c = cutClass(E, g, sep); c != "" {
+					break
+				}
+			}
+			empty := c == "cut-at-empty-name"
+			if c == "" || (cls != "" && empty != (cls == "cut-at-empty-name")) {
+				cls = ""
+				break
+			}
+			if cls == "" || (!empty && len(E) < shortest) {
+				cls, shortest = c, len(E) // the shortest path decides the length class
+			}
+		}
+		if cls != "" {
+			return "flattenedkeys-" + cls
+		}
+	}
 	if !extra && len(missing) > 0 && len(got)+len(missing) == len(want) {
 		all := true
 		for _, k := range missing {
@@ -996,6 +1243,22 @@ func (s *state) verifyTree(t int, prev *model.Node) {
 	if fsep != "." && nested(want) {
 		s.res.Ev("flattenedkeys_calls_other_sep_with_nested_keys", 1)
 	}
+	for _, k := range want {
+		switch n := strings.Count(k, ".") + 1; {
+		case n > 128:
+			s.res.Ev("settings_compared_with_more_than_128_names", 1)
+		case n > 64:
+			s.res.Ev("settings_compared_with_65_to_128_names", 1)
+		case n > 32:
+			s.res.Ev("settings_compared_with_33_to_64_names", 1)
+		}
+		if strings.HasSuffix(k, ".") || strings.HasPrefix(k, ".") || strings.Contains(k, "..") || k == "" {
+			s.res.Ev("settings_compared_with_an_empty_name_on_the_way", 1)
+		}
+	}
+	if hasDup(respell(want, fsep)) {
+		s.res.Ev("flattenedkeys_calls_listing_a_path_string_twice", 1)
+	}
 	// (4) CompareConfigs
 	cp, err := ucfg.NewFrom(tr.m.ToGo(), s.o()...)
 	if err != nil {
@@ -1004,52 +1267,65 @@ func (s *state) verifyTree(t int, prev *model.Node) {
 	do, dsep := s.observer()
 	d := diff.CompareConfigs(tr.c, cp, do...)
 	s.res.Eval(1)
-	if d.HasChanged() || !eq(sorted(d[diff.Keep]), respell(want, dsep)) {
-		sig := "diff-equal-configs-changed"
-		if foreign(cat(cat(d[diff.Keep], d[diff.Add]), d[diff.Remove]), want, dsep) {
-			sig = "diff-keys-spelled-with-other-separator"
-		}
-		s.fail(sig, "CompareConfigs(T%d, equal copy, %s) = %v, expected no change and kept keys %v", t, optName(do, dsep), d, respell(want, dsep))
+	if ws := respell(want, dsep); d.HasChanged() || !eq(sorted(d[diff.Keep]), uniq(ws)) {
+		s.fail(diffSig(d, ws, ws, want, dsep, "diff-equal-configs-changed"), "CompareConfigs(T%d, equal copy, %s) = %v, expected no change and kept keys %v", t, optName(do, dsep), d, uniq(ws))
 		return
 	}
 	if dsep != "." && nested(want) {
 		s.res.Ev("diffs_other_sep_with_nested_keys", 1)
 	}
-	if prev == nil {
-		return
+	// pairs: the state before the step (if this tree was written to), and an
+	// unrelated configuration - another live tree or an empty one
+	type side struct {
+		c    *ucfg.Config
+		keys []string
+		what string
 	}
-	pc, err := ucfg.NewFrom(prev.ToGo(), s.o()...)
-	if err != nil {
-		return
-	}
-	var old []string
-	leafPaths(prev, nil, &old)
-	do, dsep = s.observer()
-	rev := s.r.Intn(4) == 0 // the step undone: added and removed change places
-	if rev {
-		d = diff.CompareConfigs(tr.c, pc, do...)
-		old, want = want, old
-	} else {
-		d = diff.CompareConfigs(pc, tr.c, do...)
-	}
-	s.res.Eval(1)
-	wk, wa, wr := partition(old, want)
-	wk, wa, wr = respell(wk, dsep), respell(wa, dsep), respell(wr, dsep)
-	gk, ga, gr := sorted(d[diff.Keep]), sorted(d[diff.Add]), sorted(d[diff.Remove])
-	if !eq(gk, wk) || !eq(ga, wa) || !eq(gr, wr) {
-		sig := "diff-partition-mismatch"
-		if foreign(cat(cat(gk, ga), gr), cat(old, want), dsep) {
-			sig = "diff-keys-spelled-with-other-separator"
+	var others []side
+	if prev != nil {
+		if pc, err := ucfg.NewFrom(prev.ToGo(), s.o()...); err == nil {
+			var old []string
+			leafPaths(prev, nil, &old)
+			others = append(others, side{pc, old, "state before the step"})
 		}
-		s.fail(sig, "CompareConfigs(old, new, %s) of T%d reversed=%v: keep=%v add=%v remove=%v; want keep=%v add=%v remove=%v", optName(do, dsep), t, rev, gk, ga, gr, wk, wa, wr)
-		return
 	}
-	s.res.Ev("diffs_compared", 1)
-	if len(wa) > 0 && len(wr) > 0 {
-		s.res.Ev("diffs_with_added_and_removed", 1)
+	if j := s.r.Intn(len(s.trees) + 1); j < len(s.trees) && j != t {
+		var ok []string
+		leafPaths(s.trees[j].m, nil, &ok)
+		others = append(others, side{s.trees[j].c, ok, fmt.Sprintf("T%d", j)})
+	} else {
+		others = append(others, side{ucfg.New(), nil, "New()"})
 	}
-	if dsep != "." && (nested(old) || nested(want)) {
-		s.res.Ev("diffs_other_sep_with_nested_keys", 1)
+	for _, o := range others {
+		do, dsep = s.observer()
+		oldK, newK := respell(o.keys, dsep), respell(want, dsep)
+		rev := s.r.Intn(4) == 0 // the other way round: added and removed change places
+		if rev {
+			d = diff.CompareConfigs(tr.c, o.c, do...)
+			oldK, newK = newK, oldK
+		} else {
+			d = diff.CompareConfigs(o.c, tr.c, do...)
+		}
+		s.res.Eval(1)
+		wk, wa, wr := partition(oldK, newK)
+		gk, ga, gr := sorted(d[diff.Keep]), sorted(d[diff.Add]), sorted(d[diff.Remove])
+		if !eq(gk, wk) || !eq(ga, wa) || !eq(gr, wr) {
+			s.fail(diffSig(d, oldK, newK, cat(o.keys, want), dsep, "diff-partition-mismatch"), "CompareConfigs(%s, T%d, %s) reversed=%v: keep=%v add=%v remove=%v; want keep=%v add=%v remove=%v", o.what, t, optName(do, dsep), rev, gk, ga, gr, wk, wa, wr)
+			return
+		}
+		s.res.Ev("diffs_compared", 1)
+		if o.what != "state before the step" {
+			s.res.Ev("diffs_against_unrelated_config", 1)
+		}
+		if len(wa) > 0 && len(wr) > 0 {
+			s.res.Ev("diffs_with_added_and_removed", 1)
+		}
+		if dsep != "." && (nested(o.keys) || nested(want)) {
+			s.res.Ev("diffs_other_sep_with_nested_keys", 1)
+		}
+		if hasDup(newK) || hasDup(oldK) {
+			s.res.Ev("diffs_where_one_side_lists_a_path_string_twice", 1)
+		}
 	}
 }
 
@@ -1064,18 +1340,25 @@ func (s *state) apiWalk(t int, c *ucfg.Config, n *model.Node, q []string, sep st
 	if s.failed {
 		return
 	}
-	if p := c.Path(sep); p != strings.Join(q, sep) {
+	root := s.trees[t].c
+	if c == nil {
+		// the node named "" of the root: no handle to be had, its children have addresses again
+		s.res.Ev("nodes_without_address_skipped_in_api_walk", 1)
+	} else if p := c.Path(sep); p != strings.Join(q, sep) {
 		sig := s.classify(t, join(q), "path-wrong")
 		for _, sp := range sepPool {
 			if sp != sep && len(q) > 1 && p == strings.Join(q, sp) {
 				sig = "path-spelled-with-other-separator"
 			}
 		}
+		if cc := cutClass(q, p, sep); cc != "" {
+			sig = "path-" + cc
+		}
 		s.fail(sig, "T%d: config reached via %v reports Path(%q)=%q", t, q, sep, p)
 		return
 	}
 	s.res.Eval(1)
-	if len(q) > 0 && s.r.Intn(4) == 0 {
+	if c != nil && len(q) > 0 && s.r.Intn(4) == 0 {
 		// FlattenedKeys of a child handle: the settings below it, root-relative
 		var want []string
 		leafPaths(n, q, &want)
@@ -1093,21 +1376,40 @@ func (s *state) apiWalk(t int, c *ucfg.Config, n *model.Node, q []string, sep st
 			return
 		}
 		w := cat(q, []string{seg})
-		if p := c.PathOf(seg, sep); p != strings.Join(w, sep) {
-			s.fail(s.classify(t, join(q), "pathof-wrong"), "T%d: config reached via %v reports PathOf(%q,%q)=%q", t, q, seg, sep, p)
-			return
+		if c != nil {
+			if p := c.PathOf(seg, sep); p != strings.Join(w, sep) {
+				sig := s.classify(t, join(q), "pathof-wrong")
+				if cc := cutClass(w, p, sep); cc != "" {
+					sig = "pathof-" + cc
+				}
+				s.fail(sig, "T%d: config reached via %v reports PathOf(%q,%q)=%q", t, q, seg, sep, p)
+				return
+			}
+			s.res.Eval(1)
 		}
-		s.res.Eval(1)
 		if !v.IsSub() || (len(v.D) == 0 && len(v.A) == 0) {
 			return
 		}
-		ch, err := c.Child(name, idx, s.o()...)
+		var ch *ucfg.Config
+		var err error
+		switch {
+		case !addressable(w):
+			s.apiWalk(t, nil, v, w, sep)
+			return
+		case c == nil || (seg == "" && idx < 0):
+			// no one-name address from the holder: ask the root with the whole path
+			name, idx = s.nm(w), -1
+			ch, err = root.Child(name, idx, s.o()...)
+			s.res.Ev("nodes_named_empty_reached_from_the_root", 1)
+		default:
+			ch, err = c.Child(name, idx, s.o()...)
+		}
 		s.res.Eval(1)
 		if err != nil {
 			s.fail("child-error", "T%d: Child(%q,%d) below %v failed: %v", t, name, idx, q, err)
 			return
 		}
-		if ch.Parent() != c {
+		if c != nil && ch.Parent() != c {
 			s.fail(s.classify(t, join(w), "parent-wrong"), "T%d: config reached at %q: Parent() is not the config it was reached from (Parent path %q)", t, join(w), pathOf(ch.Parent()))
 			return
 		}
@@ -1136,6 +1438,7 @@ func sorted(l []string) []string {
 
 func eq(a, b []string) bool { return strings.Join(a, "\n") == strings.Join(b, "\n") }
 
+// partition: every path string of old and cur in exactly one class, once.
 func partition(old, cur []string) (keep, add, remove []string) {
 	o := map[string]bool{}
 	for _, k := range old {
@@ -1143,6 +1446,9 @@ func partition(old, cur []string) (keep, add, remove []string) {
 	}
 	c := map[string]bool{}
 	for _, k := range cur {
+		if c[k] {
+			continue
+		}
 		c[k] = true
 		if o[k] {
 			keep = append(keep, k)
@@ -1150,12 +1456,77 @@ func partition(old, cur []string) (keep, add, remove []string) {
 			add = append(add, k)
 		}
 	}
-	for _, k := range old {
+	for k := range o {
 		if !c[k] {
 			remove = append(remove, k)
 		}
 	}
 	return sorted(keep), sorted(add), sorted(remove)
+}
+
+func uniq(l []string) []string {
+	var out []string
+	for i, k := range l {
+		if i == 0 || k != l[i-1] {
+			out = append(out, k)
+		}
+	}
+	return out
+}
+
+func hasDup(l []string) bool { return len(uniq(sorted(l))) != len(l) }
+
+// cutClass: got is not the path E but the path of a proper tail of E - the
+// names in front are lost. The class says where the cut is: right behind an
+// empty name, or (else) how long the path was.
+func cutClass(E []string, got, sep string) string {
+	for k := 1; k <= len(E); k++ {
+		if E[k-1] == "" && got == strings.Join(E[k:], sep) {
+			return "cut-at-empty-name"
+		}
+	}
+	for k := 1; k <= len(E); k++ {
+		if got != strings.Join(E[k:], sep) {
+			continue
+		}
+		n := 1
+		for n*2 < len(E) {
+			n *= 2
+		}
+		return fmt.Sprintf("loses-leading-names-of-path-longer-than-%d", n)
+	}
+	return ""
+}
+
+// diffSig classifies a CompareConfigs deviation; old and cur are the path
+// strings of the two sides as they have to be spelled.
+func diffSig(d diff.Diff, old, cur, universe []string, sep, generic string) string {
+	if foreign(cat(cat(d[diff.Keep], d[diff.Add]), d[diff.Remove]), universe, sep) {
+		return "diff-keys-spelled-with-other-separator"
+	}
+	o, n := map[string]bool{}, map[string]int{}
+	for _, k := range old {
+		o[k] = true
+	}
+	for _, k := range cur {
+		n[k]++
+	}
+	for _, k := range d[diff.Keep] {
+		if !o[k] && n[k] > 1 {
+			return "diff-keeps-path-only-the-new-config-has-and-lists-twice"
+		}
+	}
+	// a reported key that is no path of either side but a path without its leading names
+	for _, k := range cat(cat(d[diff.Keep], d[diff.Add]), d[diff.Remove]) {
+		if !o[k] && n[k] == 0 {
+			for _, u := range universe {
+				if c := cutClass(strings.Split(u, "."), k, sep); c != "" {
+					return "diff-keys-" + c
+				}
+			}
+		}
+	}
+	return generic
 }
 
 func symdiff(a, b []string) []string {
